@@ -96,8 +96,8 @@ Proof.
 Qed.
 
 (* ---------- the open finding: finishing before the request body was read ---------- *)
-Definition q_post11_early : req := mkReq POST V11 None None BodyCL false true.
-Definition q_post10ka_early : req := mkReq POST V10 (Some (b "keep-alive")) None BodyCL false true.
+Definition q_post11_early : req := mkReq POST V11 None None BodyCL false true WSync.
+Definition q_post10ka_early : req := mkReq POST V10 (Some (b "keep-alive")) None BodyCL false true WSync.
 
 Lemma early_finish_unannounced :
   let s := run env0 q_post11_early [Write (b "x"); Finish] in
@@ -114,7 +114,7 @@ Proof. vm_compute. repeat split. Qed.
 
 (* hypotheses are satisfiable: a streamed response to an HTTP/1.0 keep-alive client (the fixed
    finding of DESIGN section 8) is closed and not acknowledged; a buffered one stays open *)
-Definition q_get10ka : req := mkReq GET V10 (Some (b "Keep-Alive")) None NoBody false false.
+Definition q_get10ka : req := mkReq GET V10 (Some (b "Keep-Alive")) None NoBody false false WSync.
 Lemma streamed_10_example :
   let s := run env0 q_get10ka [Write (b "x"); Flush; Write (b "y")] in
   g_hdr_err s = false /\ g_out_err s = false /\ g_early_fin s = false /\
